@@ -437,11 +437,10 @@ def ref_env(cfgd, peer, raw, proxy_decl):
             groups.setdefault(b"CONTENT_LENGTH", []).append(val)
         else:
             groups.setdefault(b"HTTP_" + un.replace(b"-", b"_"), []).append(val)
-        if un == b"SCRIPT_NAME":
-            # a forwarder header: honoured from a trusted front end that lists it
-            if trusted and ("SCRIPT_NAME" in c.forwarder_headers or "*" in c.forwarder_headers):
-                script_name = val
-                script_from_header = True
+        if un == b"SCRIPT_NAME" and trusted:
+            # a presented forwarder header: only a trusted front end may move the script name
+            script_name = val
+            script_from_header = True
     for k, vals in groups.items():
         env[k.decode("latin-1")] = b",".join(vals)
     # scheme: only a trusted front end can assert it
@@ -515,3 +514,65 @@ def split_requests(data):
         reqs.append(data[:i + 4])
         data = data[i + 4:]
     return proxy, reqs
+
+
+# ---- running a batch of connections: implementation, model (Coq), comparison ------------------------------
+
+def run_cases(ctx, tag, cases, shard=250):
+    """cases: list of dicts {kind, cfg, peer, data}.  Runs the real workers, then the model inside Coq.
+    Adds to each case: envs, errs, codes, obs.  Returns the list of indices where model and
+    implementation disagree (None when the model could not be evaluated)."""
+    for c in cases:
+        c["envs"], c["errs"], c["codes"] = run_conn(c["kind"], c["cfg"], c["peer"], c["data"])
+        c["obs"] = enc_conn(c["envs"], c["errs"])
+    ctx.log("%s: %d connections served by the real workers" % (tag, len(cases)))
+    exprs = [model_expr(c["kind"], c["cfg"], c["peer"], c["data"]) for c in cases]
+    try:
+        res = ctx.coq_eval(tag, HEADER, exprs, shard=shard)
+        ctx.log("%s: model evaluated by coqc (vm_compute)" % tag)
+    except vlib.BrokenTie as e:
+        ctx.broken.append("correspondence %s: %s" % (tag, str(e)[:1500]))
+        ctx.log("CORRESPONDENCE BROKEN:", str(e)[:1500])
+        return None
+    bad = []
+    for i, (m, c) in enumerate(zip(res, cases)):
+        c["model"] = m
+        if not same_obs(m, c["obs"]):
+            bad.append(i)
+    ctx.cov["traces_validated_against_impl"] += len(cases) - len(bad)
+    return bad
+
+
+def case_json(c):
+    peer = list(c["peer"]) if isinstance(c["peer"], tuple) else c["peer"]
+    return {"kind": c["kind"], "cfg": c["cfg"], "peer": peer, "data": c["data"].decode("latin-1")}
+
+
+def case_from_json(j):
+    peer = tuple(j["peer"]) if isinstance(j["peer"], list) else j["peer"]
+    return {"kind": j["kind"], "cfg": j["cfg"], "peer": peer, "data": j["data"].encode("latin-1")}
+
+
+def shrink_case(case, fails_fn):
+    """Remove header lines (never request lines or a PROXY line) while the same kind of failure remains."""
+    lines = case["data"].split(b"\r\n")
+    removable = [i for i, ln in enumerate(lines)
+                 if b":" in ln.split(b" ")[0] + b"" and not ln.startswith(b"PROXY") and not re.match(rb"[!-~]+ [^ ]+ HTTP/\d\.\d$", ln)]
+    if len(removable) < 2:
+        return case
+
+    def build(keep):
+        ks = set(keep)
+        return dict(case, data=b"\r\n".join(ln for i, ln in enumerate(lines) if i not in removable or i in ks))
+
+    def still(keep):
+        try:
+            return bool(fails_fn(build(keep)))
+        except Exception:
+            return False
+    keep = vlib.shrink_list(removable, still, max_steps=60)
+    small = build(keep)
+    try:
+        return small if fails_fn(small) else case
+    except Exception:
+        return case
